@@ -22,6 +22,9 @@ pub enum Task {
     Rendezvous(u8),
     /// panics inside the pool (C06: request handling that fails internally)
     Panic,
+    /// blocks until the task submitted d positions later has finished: a pool with a shared queue and N >= 2 workers serves that later task on
+    /// another worker; a pool that binds tasks to workers at submission (or serves fewer than 2 at a time) does not
+    WaitFor(u8),
 }
 
 #[derive(Clone, Debug, Serialize, Deserialize, PartialEq, Eq, Hash)]
@@ -55,11 +58,13 @@ fn body(case: &Case) {
     let finished: Arc<Vec<AtomicUsize>> = Arc::new((0..t).map(|_| AtomicUsize::new(0)).collect());
     let barriers: Vec<Arc<Barrier>> = case.widths.iter().map(|w| Arc::new(Barrier::new(*w as usize))).collect();
     let (done_tx, done_rx) = mpsc::channel::<usize>();
+    let done: Arc<(shuttle::sync::Mutex<Vec<bool>>, shuttle::sync::Condvar)> = Arc::new((shuttle::sync::Mutex::new(vec![false; t]), shuttle::sync::Condvar::new()));
     let pool = ThreadPool::new(case.n);
     for (i, task) in case.tasks.iter().enumerate() {
         let c = counters.clone();
         let f = finished.clone();
         let tx = done_tx.clone();
+        let done = done.clone();
         let task = task.clone();
         let barrier = match &task { Task::Rendezvous(g) => Some(barriers[*g as usize].clone()), _ => None };
         pool.execute(move || {
@@ -68,10 +73,12 @@ fn body(case: &Case) {
                 Task::Instant => {}
                 Task::Long(k) => { for _ in 0..k { shuttle::thread::yield_now(); } }
                 Task::Rendezvous(_) => { barrier.unwrap().wait(); }
+                Task::WaitFor(d) => { let target = i + d as usize; if target < t { let (m, cv) = &*done; let mut g = m.lock().unwrap(); while !g[target] { g = cv.wait(g).unwrap(); } } }
                 // the three payload types a panic can carry: &'static str (literal message), String (formatted message), anything else (panic_any)
                 Task::Panic => { f[i].fetch_add(1, Ordering::SeqCst); let _ = tx.send(i); match i % 3 { 0 => panic!("scripted job failure"), 1 => panic!("scripted job failure in task {}", i), _ => std::panic::panic_any(i) } }
             }
             f[i].fetch_add(1, Ordering::SeqCst);
+            { let (m, cv) = &*done; m.lock().unwrap()[i] = true; cv.notify_all(); }
             let _ = tx.send(i);
         });
         if case.interleave_submit { shuttle::thread::yield_now(); }
@@ -142,6 +149,7 @@ fn tasks_strategy(n: usize, with_panics: bool) -> impl Strategy<Value = (Vec<Tas
         3 => proptest::collection::vec(prop_oneof![3 => Just(Task::Instant), 2 => (1u8..6).prop_map(Task::Long), if with_panics { 2 } else { 0 } => Just(Task::Panic)], 0..=n.max(1)).prop_map(|v| (v, 0u8)),
         3 => Just((vec![], 1u8)),   // full group of width N
         if n >= 2 { 2 } else { 0 } => Just((vec![], 2u8)),   // long task + group of width N-1
+        if n >= 2 { 2 } else { 0 } => (1u8..=(2 * n.max(1)) as u8).prop_map(|d| (vec![Task::WaitFor(d)], 3u8)),   // a task that waits for the task d positions later
     ];
     proptest::collection::vec(seg, 0..=4).prop_map(move |segs| {
         let mut tasks = vec![]; let mut widths = vec![];
@@ -150,6 +158,7 @@ fn tasks_strategy(n: usize, with_panics: bool) -> impl Strategy<Value = (Vec<Tas
             match kind {
                 0 => { for t in plain { if tasks.len() < 4 * n { tasks.push(t); } } }
                 1 => { if tasks.len() + n <= 4 * n { let g = widths.len() as u8; widths.push(n as u8); for _ in 0..n { tasks.push(Task::Rendezvous(g)); } } }
+                3 => { if let Some(Task::WaitFor(d)) = plain.first() { let d = *d as usize; if n >= 2 && tasks.len() + d + 1 <= 4 * n { tasks.push(Task::WaitFor(d as u8)); for _ in 0..d { tasks.push(Task::Instant); } } } }
                 _ => { if n >= 2 && tasks.len() + n <= 4 * n { let g = widths.len() as u8; widths.push((n - 1) as u8); tasks.push(Task::Long(40)); for _ in 0..n - 1 { tasks.push(Task::Rendezvous(g)); } } }
             }
         }
@@ -227,6 +236,7 @@ fn campaign(property: &str, section: &str, cases: u64, iterations: usize, with_p
                     *st.1.entry(match case.scheduler { Sched::Random => "scheduler-random".to_string(), Sched::Pct(d) => format!("scheduler-pct-depth-{}", d), Sched::Dfs => "scheduler-dfs".to_string() }).or_insert(0) += 1;
                     if has_rv { *st.1.entry("with-rendezvous-group".into()).or_insert(0) += 1; }
                     if case.tasks.iter().any(|t| matches!(t, Task::Panic)) { *st.1.entry("with-panicking-job".into()).or_insert(0) += 1; }
+                    if case.tasks.iter().any(|t| matches!(t, Task::WaitFor(_))) { *st.1.entry("task-waiting-for-a-later-task".into()).or_insert(0) += 1; }
                     if case.tasks.iter().any(|t| matches!(t, Task::Long(40))) { *st.1.entry("long-task-plus-group-of-N-1".into()).or_insert(0) += 1; }
                     if case.tasks.is_empty() { *st.1.entry("no-tasks".into()).or_insert(0) += 1; }
                     if is_nt { nt.borrow_mut().insert(hash64(&case)); if st.2.len() < 4 { st.2.push(json!({"section": section, "class": "nontrivial", "case": &case, "schedules_explored": executions})); } }
